@@ -266,4 +266,32 @@ def cycHeap : LS := loadPy { assets := [{ name := "A", superAsset := some "B" },
 example : ¬ NoCycleAbove cycHeap "A" := by decide
 example : errOf (lookup cycHeap "A") = some .recursionError := by decide
 
+/-! ## Part 6 — the frame theorem is not vacuous: the code before fix 35ae67d violates it
+
+`aliasHeap` holds `P{s}` ← `C{s +> a}` ← `G{s +> b}` (`Props/C03.lean: aliasLang`): 3 step dictionaries, 2 `reaches`
+dictionaries, 2 lists; list 0 is `C.s`'s `[a]`. -/
+
+def aliasHeap : LS := loadPy MalVerif.C03.aliasLang
+
+theorem aliasHeap_wf : SpecBelow aliasHeap 3 2 2 := specBelow_of_check (by decide)
+
+/-- the translated lookup (the code as it is now) on `G`: list 0 of the specification still is `[a]` afterwards
+(an instance of `lookup_frame`), the answer is `[a, b]` in a fresh list -/
+example :
+    (lookup aliasHeap "G").toOption.map (fun r => ((r.1.exprL.take 2).map (·.map exprOfPy), absAnswer r.1 r.2)) =
+    some ([[Expr.step "a"], [Expr.step "b"]], MalVerif.C03.aliasLang.foldSteps "G") := by decide
+
+/-- the pre-fix variant (`TieLang.attacksPyAliasing`, hand-written) on the same well-formed heap: the call on `G`
+*writes into the specification* — list 0, an object of the specification below the mark `2`, becomes `[a, b]` — so the
+conclusion of `lookup_frame` is false for it, and a second call returns one expression more -/
+theorem aliasing_variant_violates_frame :
+    (aliasHeap.exprL[0]?).map (·.map exprOfPy) = some [Expr.step "a"] ∧
+    (attacksPyAliasing (pyFuelL aliasHeap) aliasHeap "G").toOption.map
+        (fun r => (r.1.exprL[0]?).map (·.map exprOfPy)) = some (some [Expr.step "a", Expr.step "b"]) ∧
+    ((attacksPyAliasing (pyFuelL aliasHeap) aliasHeap "G").toOption.bind
+        (fun r => (attacksPyAliasing (pyFuelL r.1) r.1 "G").toOption.map
+          (fun r' => (r'.1.exprL[0]?).map (·.map exprOfPy)))) =
+      some (some [Expr.step "a", Expr.step "b", Expr.step "b"]) := by
+  refine ⟨by decide, by decide, by decide⟩
+
 end MalVerif.PropsGen.C03
